@@ -9,10 +9,13 @@
 mod engine_a;
 mod engine_b;
 mod engine_c;
+mod engine_e;
+mod engine_f;
 mod engine_g;
 mod framework;
 mod hashseed;
 mod observe;
+mod procio;
 mod refint;
 mod rng;
 mod sandbox;
@@ -28,11 +31,13 @@ fn engine_for(prop: &str) -> Option<&'static dyn Engine> {
         "C13" => Some(&engine_b::ENGINE_C13),
         "C14" => Some(&engine_b::ENGINE_C14),
         "C19" => Some(&engine_g::ENGINE_C19),
+        "C17" => Some(&engine_e::ENGINE_C17),
+        "C18" => Some(&engine_f::ENGINE_C18),
         _ => None,
     }
 }
 
-const ALL: &[&str] = &["C03", "C08", "C12", "C13", "C14", "C19"];
+const ALL: &[&str] = &["C03", "C08", "C12", "C13", "C14", "C17", "C18", "C19"];
 
 fn main() {
     hashseed::install_panic_hook();
